@@ -7,11 +7,11 @@ define("T_JOBS", [], 'typed("event:batch-jobs-ran", "Opaque")')
 APP = lambda tag: [f"len(ghost.log) == old(len(ghost.log)) + 1 and ghost.log[old(len(ghost.log))] == {tag}",
                    "forall(i, range(old(len(ghost.log))), ghost.log[i] == old(ghost.log)[i])"]
 
+from pyvc.spec import CONTRACTS as _C
+CLI_FIELDS = list(_C["JobRunner._generate_jobs"].modifies)     # fields of the AsyncCliCommand objects created for the batch's jobs
 contract("JobRunner._create_local_scratch", kind="assumed", params=[("self", "Ref[JobRunner]")], returns="Opaque", note="mkdir under the node's local scratch")
 contract("JobConfiguration.serialize_for_execution", kind="assumed", params=[("self", "Ref[JobConfiguration]"), ("scratch_dir", "Opaque"), ("are_inputs_local", "bool", "True")],
          returns="Opaque", note="writes per-job files and a names-only config into the scratch directory (C17)")
-contract("JobRunner._generate_jobs", kind="assumed", params=[("self", "Ref[JobRunner]"), ("config_file", "Opaque"), ("verbose", "bool")], returns="List[Ref[AsyncJob]]",
-         fresh_result=True, note="one AsyncCliCommand per configured job (generate_command and the constructor arguments are verified in C19)")
 contract("JobRunner._complete_hpc_job", kind="assumed", params=[("self", "Ref[JobRunner]")],
          modifies=["ghost.files", "ghost.vfiles", "ghost.file_writes", "ghost.cluster_lock", "ghost.lock_marker_left"],
          note="local-HPC-type only: removes this batch's id from the persisted status under promotion")
@@ -30,7 +30,7 @@ contract("JobRunner._run_jobs", file=F,
          modifies=["ghost.log", "ghost.run_jobs_depth", "ResourceMonitorLogger.g_x", "ghost.runs", "ghost.collected", "ghost.collected_failed", "ghost.popens", "ghost.rows",
                    "ResourceMonitorAggregator._stats", "ResourceMonitorAggregator._count", "ResourceMonitorAggregator._monitor",
                    "ResourceMonitorAggregator._last_stats", "ResourceMonitorAggregator._summaries", "ResourceMonitorAggregator._process_summaries",
-                   "ResourceMonitorAggregator._process_sample_count"])
+                   "ResourceMonitorAggregator._process_sample_count"] + CLI_FIELDS)
 ghost("num_cpus", "int")
 ghost("run_jobs_depth", "int")
 contract("HpcIntf.get_num_cpus", kind="assumed", params=[("self", "Ref[HpcIntf]")], returns="int", ensures=["result == ghost.num_cpus"],
@@ -59,6 +59,7 @@ contract("JobRunner.run_jobs_v", file=F, qualname="JobRunner.run_jobs",
          returns="Enum[Status]",
          locals={"env": "Dict[Name,Opaque]"},
          call_alias={"check_run_command": "check_run_command_env", "run_command": "run_command_env"},
+         requires=["Inv_cfg(self._config)"],
          ensures=[
              # C16 (command variant; the obsolete node_setup_script / node_shutdown_script fields unset):
              # node setup (iff configured) strictly before the batch's jobs, node teardown (iff configured) strictly after, each once
@@ -82,4 +83,4 @@ contract("JobRunner.run_jobs_v", file=F, qualname="JobRunner.run_jobs",
                    "ghost.popens", "ghost.rows", "ghost.files", "ghost.vfiles", "ghost.file_writes", "ghost.cluster_lock", "ghost.lock_marker_left",
                    "ResourceMonitorLogger.g_x", "ResourceMonitorAggregator._stats", "ResourceMonitorAggregator._count", "ResourceMonitorAggregator._monitor",
                    "ResourceMonitorAggregator._last_stats", "ResourceMonitorAggregator._summaries", "ResourceMonitorAggregator._process_summaries",
-                   "ResourceMonitorAggregator._process_sample_count"])
+                   "ResourceMonitorAggregator._process_sample_count"] + CLI_FIELDS)
